@@ -10,7 +10,61 @@ pub struct C07 {
     pub short: Vec<Vec<usize>>,
     /// edge lists (sources, targets, n)
     pub graphs: Vec<(Vec<usize>, Vec<usize>, usize)>,
+    /// longer arrays over a smaller alphabet (length <= 9 over {0,1}, <= 6 over {0,1,2}): block / lane thresholds
+    pub long: Vec<Vec<usize>>,
+    /// structured edge lists on up to 64 nodes in several orders (paths, stars, binomial merges, cycles,
+    /// combs): deep union-find trees that no 5-node graph can produce
+    pub big_graphs: Vec<(Vec<usize>, Vec<usize>, usize)>,
     pub families: Vec<(&'static str, u64)>,
+}
+
+/// magnitudes around powers of two (table sizes, lane counts, memo sizes): values and sizes of this
+/// order occur in real use although every array in the exhaustive universes is tiny
+pub const LARGE: [usize; 10] = [0, 1, 2, 255, 256, 257, 1023, 1024, 1025, 4097];
+
+fn structured_graphs() -> Vec<(Vec<usize>, Vec<usize>, usize)> {
+    let mut out: Vec<(Vec<usize>, Vec<usize>, usize)> = vec![];
+    let mut push = |edges: Vec<(usize, usize)>, n: usize, out: &mut Vec<(Vec<usize>, Vec<usize>, usize)>| {
+        // the edge list as given, reversed, with endpoints swapped, and both
+        let variants: Vec<Vec<(usize, usize)>> = vec![
+            edges.clone(),
+            edges.iter().rev().cloned().collect(),
+            edges.iter().map(|&(a, b)| (b, a)).collect(),
+            edges.iter().rev().map(|&(a, b)| (b, a)).collect(),
+        ];
+        for v in variants {
+            out.push((v.iter().map(|e| e.0).collect(), v.iter().map(|e| e.1).collect(), n));
+        }
+    };
+    for n in [1usize, 2, 3, 5, 8, 13, 16, 17, 31, 32, 33, 64] {
+        // path, star, cycle, two halves
+        push((1..n).map(|i| (i - 1, i)).collect(), n, &mut out);
+        push((1..n).map(|i| (0, i)).collect(), n, &mut out);
+        push((0..n).map(|i| (i, (i + 1) % n)).collect(), n, &mut out);
+        push((2..n).map(|i| (i - 2, i)).collect(), n, &mut out);
+        // pairs first, then pairs of pairs, ... (binomial, root to root and leaf to leaf)
+        for leaf in [false, true] {
+            let mut edges = vec![];
+            let mut step = 1;
+            while step < n {
+                let mut i = 0;
+                while i + step < n {
+                    edges.push(if leaf { (i + step - 1, (i + 2 * step).min(n) - 1) } else { (i, i + step) });
+                    i += 2 * step;
+                }
+                step *= 2;
+            }
+            push(edges, n, &mut out);
+        }
+        // comb: a path with a tooth on every node, teeth first
+        if n >= 4 {
+            let h = n / 2;
+            let mut edges: Vec<(usize, usize)> = (0..h).map(|i| (i, h + i)).collect();
+            edges.extend((1..h).map(|i| (i - 1, i)));
+            push(edges, 2 * h, &mut out);
+        }
+    }
+    out
 }
 
 fn a(v: &[usize]) -> Arr<usize> {
@@ -29,8 +83,9 @@ fn ensure(c: bool, msg: impl FnOnce() -> String) -> CR {
 
 impl C07 {
     pub fn new(quick: bool) -> C07 {
-        let arrays = ohmc_core::uni::lists(4, 4);
-        let short = ohmc_core::uni::lists(4, 3);
+        // quick: arrays of length <= 4 over values <= 3; thorough: length <= 5 over values <= 4
+        let arrays = if quick { ohmc_core::uni::lists(4, 4) } else { ohmc_core::uni::lists(5, 5) };
+        let short = if quick { ohmc_core::uni::lists(4, 3) } else { ohmc_core::uni::lists(5, 4) };
         let mut graphs = vec![];
         let (nmax, emax) = if quick { (4, 3) } else { (5, 4) };
         for n in 0..=nmax {
@@ -45,16 +100,19 @@ impl C07 {
                 }
             }
         }
+        let mut long = ohmc_core::uni::lists(2, 9);
+        long.extend(ohmc_core::uni::lists(3, 6).into_iter().filter(|l| l.contains(&2)));
+        let big_graphs = structured_graphs();
         let na = arrays.len() as u64;
         let ns = short.len() as u64;
         let families: Vec<(&'static str, u64)> = vec![
             ("basic", na),
-            ("ranges", 5 * 6 * 6),
-            ("set_range", ns * 16),
+            ("ranges", 6 * 6 * 6),
+            ("set_range", ns * 25),
             ("concatenate", na * na),
             ("fill", 4 * 5),
             ("gather", na * ns),
-            ("scatter", ns * ns * 5),
+            ("scatter", ns * ns * 6),
             ("scatter_assign", ns * ns * ns),
             ("scatter_assign_constant", na * ns * 4),
             ("arith", na * na),
@@ -70,13 +128,17 @@ impl C07 {
             ("to_dense", na),
             ("segmented_sum", ns * na),
             ("segmented_arange", na),
-            ("bincount", na * 5),
+            ("bincount", na * 6),
             ("sparse_bincount", na),
             ("zero", na),
             ("scatter_sub_assign", ns * ns * ns),
             ("generic_elements", ns * ns),
+            ("long_arrays", long.len() as u64),
+            ("components_structured", big_graphs.len() as u64),
+            ("large_values", 10 * 10 * 10 + 10 * 10 + 10 + 1),
+            ("components_large_sparse", (LARGE.len() * 6) as u64),
         ];
-        C07 { arrays, short, graphs, families }
+        C07 { arrays, short, graphs, long, big_graphs, families }
     }
 
     pub fn run(&self, fam: &str, i: u64, loc: &mut ohmc_core::explore::Local) {
@@ -127,7 +189,7 @@ impl C07 {
             }
             "ranges" => {
                 // array length n, bounds lo <= hi <= n, all range forms
-                let n = (i / 36) as usize;
+                let n = (i / 36) as usize; // 0..=5
                 let lo = ((i / 6) % 6) as usize;
                 let hi = (i % 6) as usize;
                 if !(lo <= hi && hi <= n) {
@@ -159,9 +221,9 @@ impl C07 {
             }
             "set_range" => {
                 // target array = short[i/16] ; range lo..hi from (i%16)
-                let v = sh(i / 16);
-                let lo = ((i % 16) / 4) as usize;
-                let hi = (i % 4) as usize;
+                let v = sh(i / 25);
+                let lo = ((i % 25) / 5) as usize;
+                let hi = (i % 5) as usize;
                 if !(lo <= hi && hi <= v.len()) {
                     return Ok(false);
                 }
@@ -212,9 +274,9 @@ impl C07 {
                 Ok(true)
             }
             "scatter" => {
-                let v = sh(i / (ns * 5));
-                let idx = sh((i / 5) % ns);
-                let n = (i % 5) as usize;
+                let v = sh(i / (ns * 6));
+                let idx = sh((i / 6) % ns);
+                let n = (i % 6) as usize;
                 if idx.len() != v.len() || idx.iter().any(|&k| k >= n) {
                     return Ok(false);
                 }
@@ -429,7 +491,7 @@ impl C07 {
                 Ok(true)
             }
             "bincount" => {
-                let (v, size) = (arr(i / 5), (i % 5) as usize);
+                let (v, size) = (arr(i / 6), (i % 6) as usize);
                 if v.iter().any(|&x| x >= size) {
                     return Ok(false);
                 }
@@ -466,7 +528,7 @@ impl C07 {
                 if ixs.len() != rhs.len() || ixs.iter().any(|&k| k >= base.len()) {
                     return Ok(false);
                 }
-                let big: Vec<usize> = base.iter().map(|x| x + 9).collect(); // no underflow
+                let big: Vec<usize> = base.iter().map(|x| x + 40).collect(); // no underflow (at most 4 subtractions of at most 4)
                 let mut e = big.clone();
                 for (k, r) in ixs.iter().zip(rhs.iter()) {
                     e[*k] -= r;
@@ -509,6 +571,157 @@ impl C07 {
                     }
                 }
                 ensure(Array::<K, String>::get_range(&x, ..) == &sv[..], || "get_range<String>".into())?;
+                Ok(true)
+            }
+            "long_arrays" => {
+                let v = &self.long[i as usize];
+                let n = v.len();
+                let x = a(v);
+                ensure(Array::<K, usize>::len(&x) == n && (0..n).all(|k| Array::<K, usize>::get(&x, k) == v[k]), || format!("len/get on {:?}", v))?;
+                ensure(NaturalArray::<K>::max(&x) == v.iter().max().cloned(), || format!("max({:?}) = {:?}", v, NaturalArray::<K>::max(&x)))?;
+                let mut cs = vec![0usize];
+                for k in v.iter() {
+                    cs.push(cs.last().unwrap() + k);
+                }
+                ensure(NaturalArray::<K>::cumulative_sum(&x).0 == cs, || format!("cumulative_sum({:?})", v))?;
+                ensure(NaturalArray::<K>::sum(&x) == *cs.last().unwrap(), || format!("sum({:?})", v))?;
+                check_sorting_perm(v, &OrdArray::<K, usize>::argsort(&x).0)?;
+                ensure(NaturalArray::<K>::zero(&x).0 == (0..n).filter(|&j| v[j] == 0).collect::<Vec<_>>(), || format!("zero({:?})", v))?;
+                let size = v.iter().max().map(|m| m + 1).unwrap_or(0);
+                ensure(NaturalArray::<K>::bincount(&x, size).0 == (0..size).map(|j| v.iter().filter(|&&y| y == j).count()).collect::<Vec<_>>(), || format!("bincount({:?})", v))?;
+                let (keys, counts) = NaturalArray::<K>::sparse_bincount(&x);
+                let mut kc: Vec<(usize, usize)> = keys.0.iter().cloned().zip(counts.0.iter().cloned()).collect();
+                kc.sort();
+                let mut ek: Vec<(usize, usize)> = (0..size).map(|j| (j, v.iter().filter(|&&y| y == j).count())).filter(|p| p.1 > 0).collect();
+                ek.sort();
+                ensure(kc == ek, || format!("sparse_bincount({:?}) = {:?}", v, kc))?;
+                let mut sa = vec![];
+                for &k in v.iter() {
+                    sa.extend(0..k);
+                }
+                ensure(NaturalArray::<K>::segmented_arange(&x).0 == sa, || format!("segmented_arange({:?})", v))?;
+                let (q, r) = NaturalArray::<K>::quot_rem(&a(&v.iter().map(|y| y * 5 + 1).collect::<Vec<_>>()), 3);
+                ensure(q.0 == v.iter().map(|y| (y * 5 + 1) / 3).collect::<Vec<_>>() && r.0 == v.iter().map(|y| (y * 5 + 1) % 3).collect::<Vec<_>>(), || format!("quot_rem on {:?}", v))?;
+                let sc: Arr<usize> = 7 + &x;
+                ensure(sc.0 == v.iter().map(|y| y + 7).collect::<Vec<_>>(), || format!("7 + &{:?}", v))?;
+                let rev: Vec<usize> = (0..n).rev().collect();
+                ensure(Array::<K, usize>::gather(&x, &rev[..]).0 == rev.iter().map(|&k| v[k]).collect::<Vec<_>>(), || format!("gather({:?}, reversed indices)", v))?;
+                if n > 0 {
+                    let sct = Array::<K, usize>::scatter(&x, &rev[..], n);
+                    ensure(sct.0 == rev.iter().map(|&k| v[k]).collect::<Vec<_>>(), || format!("scatter({:?}, reversed indices)", v))?;
+                }
+                ensure(Array::<K, usize>::concatenate(&x, &x).0 == [v.clone(), v.clone()].concat(), || format!("concatenate({:?}, itself)", v))?;
+                ensure((a(v) + a(v)).0 == v.iter().map(|y| 2 * y).collect::<Vec<_>>() && (a(v) - a(v)).0 == vec![0; n], || format!("x + x / x - x on {:?}", v))?;
+                ensure(NaturalArray::<K>::mul_constant_add(&x, 3, &x).0 == v.iter().map(|y| 4 * y).collect::<Vec<_>>(), || format!("mul_constant_add on {:?}", v))?;
+                let mut rp = vec![];
+                for (c, y) in v.iter().zip(rev.iter()) {
+                    for _ in 0..*c {
+                        rp.push(*y);
+                    }
+                }
+                ensure(NaturalArray::<K>::repeat(&x, &rev[..]).0 == rp, || format!("repeat({:?}, reversed indices)", v))?;
+                let ones: Vec<usize> = vec![1; n];
+                ensure(NaturalArray::<K>::segmented_sum(&a(&ones), &x).0 == *v, || format!("segmented_sum(ones, {:?})", v))?;
+                if n > 0 {
+                    ensure(NaturalArray::<K>::segmented_sum(&a(&[n]), &x).0 == vec![*cs.last().unwrap()], || format!("segmented_sum([n], {:?})", v))?;
+                }
+                let mut y = a(v);
+                Array::<K, usize>::scatter_assign_constant(&mut y, &a(&rev), 9);
+                ensure(y.0 == vec![9; n], || format!("scatter_assign_constant on {:?}", v))?;
+                let mut y = a(&v.iter().map(|t| t + 1).collect::<Vec<_>>());
+                NaturalArray::<K>::scatter_sub_assign(&mut y, &a(&rev), &a(&vec![1; n]));
+                ensure(y.0 == *v, || format!("scatter_sub_assign on {:?}", v))?;
+                ensure(Array::<K, usize>::get_range(&x, ..) == &v[..] && (n == 0 || Array::<K, usize>::get_range(&x, 1..) == &v[1..]) && (n == 0 || Array::<K, usize>::get_range(&x, ..=n - 1) == &v[..]), || format!("get_range on {:?}", v))?;
+                Ok(n >= 5)
+            }
+            "large_values" => {
+                // all arrays of length <= 3 over the magnitudes in LARGE
+                let v: Vec<usize> = ohmc_core::uni::s_unrank(10, 3, i).into_iter().map(|k| LARGE[k]).collect();
+                let x = a(&v);
+                if BACKEND_NAME == "vec" {
+                    let (d, k) = open_hypergraphs::array::vec::to_dense(&v[..]);
+                    ensure(d.len() == v.len() && is_dense_surjection(&d, k) && same_partition(&d, &v), || format!("to_dense({:?}) = ({:?},{})", v, d, k))?;
+                }
+                ensure(NaturalArray::<K>::max(&x) == v.iter().max().cloned(), || format!("max({:?})", v))?;
+                check_sorting_perm(&v, &OrdArray::<K, usize>::argsort(&x).0)?;
+                let (keys, counts) = NaturalArray::<K>::sparse_bincount(&x);
+                let mut kc: Vec<(usize, usize)> = keys.0.iter().cloned().zip(counts.0.iter().cloned()).collect();
+                kc.sort();
+                let mut uniq = v.clone();
+                uniq.sort();
+                uniq.dedup();
+                ensure(kc == uniq.iter().map(|u| (*u, v.iter().filter(|y| *y == u).count())).collect::<Vec<_>>(), || format!("sparse_bincount({:?}) = {:?}", v, kc))?;
+                let size = v.iter().max().map(|m| m + 1).unwrap_or(0);
+                let bc = NaturalArray::<K>::bincount(&x, size);
+                ensure(bc.0.len() == size && (0..size).all(|j| bc.0[j] == v.iter().filter(|&&y| y == j).count()), || format!("bincount({:?}, {})", v, size))?;
+                ensure(NaturalArray::<K>::sum(&x) == v.iter().sum::<usize>(), || format!("sum({:?})", v))?;
+                // fill / arange / repeat at these sizes
+                if let Some(&n) = v.first() {
+                    ensure(<Arr<usize> as Array<K, usize>>::fill(3, n).0 == vec![3; n], || format!("fill(3,{})", n))?;
+                    let ar = <Arr<usize> as NaturalArray<K>>::arange(&1, &(n + 1));
+                    ensure(ar.0.len() == n && ar.0.iter().enumerate().all(|(j, y)| *y == j + 1), || format!("arange(1,{})", n + 1))?;
+                    ensure(NaturalArray::<K>::max(&ar) == if n == 0 { None } else { Some(n) }, || format!("max(arange(1,{}))", n + 1))?;
+                    ensure(NaturalArray::<K>::sum(&ar) == n * (n + 1) / 2, || format!("sum(arange(1,{}))", n + 1))?;
+                    ensure(NaturalArray::<K>::repeat(&a(&[n]), &[5]).0 == vec![5; n], || format!("repeat([{}],[5])", n))?;
+                }
+                Ok(v.iter().any(|&y| y > 4))
+            }
+            "components_large_sparse" => {
+                let n = LARGE[(i / 6) as usize];
+                if n < 2 {
+                    return Ok(false);
+                }
+                let pairs: Vec<(usize, usize)> = match i % 6 {
+                    0 => vec![],
+                    1 => vec![(0, 1), (n - 2, n - 1)],
+                    2 => vec![(0, n - 1)],
+                    3 => vec![(n - 1, 0), (n / 2, 0)],
+                    4 => (1..n).map(|j| (j - 1, j)).collect(),
+                    _ => (0..n / 2).map(|j| (j, n - 1 - j)).collect(),
+                };
+                let (s, t): (Vec<usize>, Vec<usize>) = pairs.iter().cloned().unzip();
+                let (lab, k) = <Arr<usize> as NaturalArray<K>>::connected_components(&a(&s), &a(&t), n);
+                // reference partition by a direct construction for these shapes
+                let mut rep: Vec<usize> = (0..n).collect();
+                for _ in 0..2 {
+                    for &(x, y) in &pairs {
+                        let (rx, ry) = (rep[x], rep[y]);
+                        if rx != ry && pairs.len() < 8 {
+                            for r in rep.iter_mut() {
+                                if *r == ry {
+                                    *r = rx;
+                                }
+                            }
+                        }
+                    }
+                }
+                if pairs.len() >= 8 {
+                    if i % 6 == 4 {
+                        rep = vec![0; n];
+                    } else {
+                        rep = (0..n).map(|j| j.min(n - 1 - j)).collect();
+                    }
+                }
+                let mut distinct = rep.clone();
+                distinct.sort();
+                distinct.dedup();
+                ensure(lab.0.len() == n && k == distinct.len() && is_dense_surjection(&lab.0, k), || format!("components on {} nodes with {} edges: k = {}, expected {}", n, pairs.len(), k, distinct.len()))?;
+                // same kernel: compare through a map representative -> label
+                let mut seen: std::collections::HashMap<usize, usize> = Default::default();
+                let mut used: std::collections::HashMap<usize, usize> = Default::default();
+                for j in 0..n {
+                    let e = *seen.entry(rep[j]).or_insert(lab.0[j]);
+                    let b = *used.entry(lab.0[j]).or_insert(rep[j]);
+                    ensure(e == lab.0[j] && b == rep[j], || format!("components on {} nodes with {} edges: node {} is in the wrong class", n, pairs.len(), j))?;
+                }
+                Ok(true)
+            }
+            "components_structured" => {
+                let (s, t, n) = &self.big_graphs[i as usize];
+                let (lab, k) = <Arr<usize> as NaturalArray<K>>::connected_components(&a(s), &a(t), *n);
+                let pairs: Vec<(usize, usize)> = s.iter().cloned().zip(t.iter().cloned()).collect();
+                let (rq, rk) = classes(*n, &pairs);
+                ensure(lab.0.len() == *n && k == rk && is_dense_surjection(&lab.0, k) && same_partition(&lab.0, &rq), || format!("components of the structured graph on {} nodes with edges {:?}: k = {} (expected {}), labels {:?}", n, pairs, k, rk, lab.0))?;
                 Ok(true)
             }
             other => Err(format!("unknown family {}", other)),
